@@ -340,7 +340,6 @@ func (w *World) serviceDesc(service string) *grpc.ServiceDesc {
 
 func (w *World) enter(ctx context.Context, rs *reqState) *HLog {
 	rs.servedBy = append(rs.servedBy, w.tag)
-	w.calls++
 	l := rs.hlogFor(w.tag)
 	l.Entered = true
 	l.EnteredAt = w.sim.Now()
